@@ -263,7 +263,7 @@ def candidates(scn):
 
 
 BUDGET = {
-    "quick": {"runs": 20000, "seconds": 40, "selfcheck": 3, "crosscheck": 16},
+    "quick": {"runs": 12000, "seconds": 40, "selfcheck": 3, "crosscheck": 16},
     "thorough": {"runs": 600000, "seconds": 900, "selfcheck": 20, "crosscheck": 60},
 }
 
